@@ -3,6 +3,11 @@
 import json
 
 CHECKS = {
+ "C14": dict(level="model_checking", engine="E1",
+   technique="exhaustive closest() sweep over all 7-peer tables x targets x k x bit shifts against brute-force XOR sort, plus explicit-state BFS of insertion/connection histories on full buckets of the real RoutingTable",
+   text="closest(): every subset of 7 peers at crafted XOR distances, with and without an address-less placeholder, every target in a 16-distance neighbourhood, k in {1,2,3,20}, at 5 (quick) / 15 (thorough) bit positions including byte boundaries and the top of the key space, and one target per bucket index against a SHA-256 keyed table, compared with an independent brute-force order. Histories: all add/lookup/established/dial-failure sequences up to depth 3/4 from seven roots (full, nearly full, empty buckets with different connection patterns) with bucket placement, capacity, local-exclusion and never-displace-connected monitors after every step.",
+   note="Keys with chosen raw bytes enter through a cfg seam mirroring KBucketEntry::insert; 'connected' = as last told to the table (harness ledger). Which non-connected entry is displaced and whether a full bucket admits a newcomer is not constrained by the statement and not checked. Known finding: bucket 0 visited twice (documented by the repository's own test).",
+   design="§4 C14"),
  "C17": dict(level="model_checking", engine="E1",
    technique="explicit-state BFS over all operation histories of the real MemoryStore (history replay, canonical-dump dedup), transition-relation oracle",
    text="Every put/get/add-provider/remove-provider history up to the depth bound, for every store configuration in a 45-configuration grid (bounds 0/1/2), is executed on the real MemoryStore and each transition is checked against a relation derived from the statement (bounds, freshness, sorted-by-distance, closest-retained, in-place re-announcement). Exhaustive within the bound; the reachable canonical state space of several configurations closes below the bound.",
